@@ -25,7 +25,10 @@ Proof. unfold consumed. rewrite app_length. replace (length a + length b - lengt
 (* the parameters describe a decodable position *)
 Definition params_ok (p : fparams) : Prop :=
   match ptag p with Some n => n <= 2147483647 | None => explicit p = false end
-  /\ (application p && private p = false).
+  /\ (application p && private p = false)
+  /\ (stringType p = 0 \/ stringType p = TagUTF8String \/ stringType p = TagNumericString
+      \/ stringType p = TagPrintableString \/ stringType p = TagIA5String)   (* what the tag-string parser produces *)
+  /\ (timeType p = 0 \/ timeType p = TagUTCTime \/ timeType p = TagGeneralizedTime).
 
 (* the universal tag the decoder settles on, given the one the encoder chose *)
 Definition dec_utag (p : fparams) (t : ty) (tag : N) : N :=
@@ -81,8 +84,10 @@ Qed.
 
 Lemma emit_header_len_ge2 c tg l k : (2 <= blen (emit_header c tg l k)).
 Proof.
-  unfold emit_header. rewrite blen_app. unfold blen.
-  destruct (31 <=? tg); destruct (128 <=? l); simpl; lia.
+  assert (H : (2 <= length (emit_header c tg l k))%nat).
+  { unfold emit_header. rewrite app_length.
+    destruct (31 <=? tg); destruct (128 <=? l); cbn [length]; lia. }
+  unfold blen. lia.
 Qed.
 
 Lemma is_string_tag_cases tag :
@@ -116,7 +121,8 @@ Section Tagged.
     match_elem p t bs0 elem_hdr (body ++ rest) (elem_bytes p t tag body ++ rest)
     = PBody (dec_utag p t tag) elem_hdr body rest (elem_bytes p t tag body).
   Proof.
-    intros bs0 Hraw. destruct Hpar as (Hpt & Hap).
+    intros bs0 Hraw. destruct Hpar as (Hpt & Hap & Hst0 & Htt).
+    assert (Hst : stringType p <> TagUTCTime) by (destruct Hst0 as [E|[E|[E|[E|E]]]]; rewrite E; discriminate).
     unfold tag_fits in Hfit. unfold match_elem, elem_hdr, elem_class, elem_tag, comp_of, dec_utag in *.
     cbn [t_class t_tag t_len t_comp].
     destruct (universal_type t) as [[ma t0] c] eqn:Eut.
@@ -133,7 +139,7 @@ Section Tagged.
         rewrite N.eqb_refl.
         destruct t; try congruence; cbn in Eut; inversion Eut; subst t0 c; clear Eut; cbn [N.eqb];
           try (destruct Hfit as [Hs Hf]; rewrite Hs);
-          try (rewrite Hfit; destruct (pset p); cbn; rewrite ?N.eqb_refl; reflexivity).
+          try (rewrite Hfit; destruct (pset p); try destruct setname; cbn; rewrite ?N.eqb_refl; reflexivity).
         * change (TagPrintableString =? TagPrintableString) with true. cbv iota.
           rewrite (is_string_tag_cases tag Hf).
           assert (Eu : (tag =? TagUTCTime) = false) by (destruct Hf as [->|[->|[->| ->]]]; reflexivity).
@@ -151,19 +157,19 @@ Section Tagged.
         rewrite Ec0.
         destruct t; try congruence; cbn in Eut; inversion Eut; subst t0 c; clear Eut;
           try (destruct Hfit as [Hs Hf]; rewrite Hs);
-          try (rewrite Hfit; destruct (pset p); reflexivity).
+          try (rewrite Hfit; destruct (pset p); try destruct setname; reflexivity).
         * change (TagPrintableString =? TagPrintableString) with true. cbv iota.
           destruct (negb (stringType p =? 0)) eqn:Es.
           -- destruct (stringType p =? TagUTCTime) eqn:E23; [|reflexivity].
-             apply N.eqb_eq in E23. rewrite E23. cbn. destruct (negb (timeType p =? 0)); reflexivity.
+             apply N.eqb_eq in E23. contradiction.
           -- reflexivity.
         * change (TagUTCTime =? TagPrintableString) with false. cbv iota.
           change (TagUTCTime =? TagUTCTime) with true. cbv iota. reflexivity.
     - (* universal *)
-      cbn [negb andb]. rewrite N.eqb_refl.
+      rewrite Hpt. cbn [negb andb]. rewrite N.eqb_refl.
       destruct t; try congruence; cbn in Eut; inversion Eut; subst t0 c; clear Eut; cbn [N.eqb];
         try (destruct Hfit as [Hs Hf]; rewrite Hs);
-        try (rewrite Hfit; destruct (pset p); cbn; rewrite ?N.eqb_refl; reflexivity).
+        try (rewrite Hfit; destruct (pset p); try destruct setname; cbn; rewrite ?N.eqb_refl; reflexivity).
       + change (TagPrintableString =? TagPrintableString) with true. cbv iota.
         rewrite (is_string_tag_cases tag Hf).
         assert (Eu : (tag =? TagUTCTime) = false) by (destruct Hf as [->|[->|[->| ->]]]; reflexivity).
@@ -171,5 +177,72 @@ Section Tagged.
       + change (TagUTCTime =? TagPrintableString) with false. cbv iota.
         change (TagUTCTime =? TagUTCTime) with true. cbv iota.
         destruct Hf as [->| ->]; reflexivity.
+  Qed.
+
+  Lemma elem_bytes_cons : exists b r, elem_bytes p t tag body ++ rest = b :: r.
+  Proof.
+    unfold elem_bytes. destruct (emit_header_cons (elem_class p) (elem_tag p tag) (blen body) (comp_of t)) as (b & r & E).
+    rewrite E. cbn [app]. eauto.
+  Qed.
+
+  Lemma elem_class_lt4 : elem_class p < 4.
+  Proof. unfold elem_class. destruct (ptag p); [|lia]. destruct (explicit p); [lia|]. destruct (application p); [lia|]. destruct (private p); lia. Qed.
+
+  Lemma elem_tag_le : elem_tag p tag <= 2147483647.
+  Proof. unfold elem_tag. destruct Hpar as (Hpt & _). destruct (ptag p); [|assumption]. destruct (explicit p); assumption. Qed.
+
+  Lemma parse_elem_header :
+    parse_tl false (elem_bytes p t tag body ++ rest) = Some (elem_hdr, body ++ rest).
+  Proof.
+    unfold elem_bytes. rewrite <- app_assoc. apply header_roundtrip.
+    repeat split; [apply elem_class_lt4 | apply elem_tag_le | apply elem_len].
+  Qed.
+
+  (* everything parseField does before the type switch *)
+  Lemma pre_field_tagged : t <> TRaw ->
+    pre_field false p t (tag_body p t tag body ++ rest)
+    = PBody (dec_utag p t tag) elem_hdr body rest (elem_bytes p t tag body).
+  Proof.
+    intros Hraw. pose proof Hpar as (Hpt & Hap & _).
+    destruct (ptag p) as [pt|] eqn:Ep.
+    - destruct (explicit p) eqn:Ee.
+      + (* explicit *)
+        pose proof Hlen as Hlen2.
+        rewrite (tag_body_explicit p t tag body pt Ep Ee) in Hlen2 |- *.
+        rewrite blen_app in Hlen2.
+        set (L := blen body + blen (emit_header 0 tag (blen body) (comp_of t))) in *.
+        set (cls := if application p then 1 else if private p then 3 else 2) in *.
+        assert (HL : 2 <= L) by (subst L; pose proof (emit_header_len_ge2 0 tag (blen body) (comp_of t)); lia).
+        assert (HLlt : L < 2147483648).
+        { subst L. unfold elem_bytes in Hlen2. rewrite blen_app in Hlen2.
+          assert (Eh : emit_header (elem_class p) (elem_tag p tag) (blen body) (comp_of t) = emit_header 0 tag (blen body) (comp_of t)).
+          { unfold elem_class, elem_tag. now rewrite Ep, Ee. }
+          rewrite Eh in Hlen2. lia. }
+        rewrite <- app_assoc.
+        unfold pre_field.
+        destruct (emit_header_cons cls pt L true) as (b0 & r0 & Eh0).
+        destruct (emit_header cls pt L true ++ elem_bytes p t tag body ++ rest) as [|bb rr] eqn:Ebs.
+        { rewrite Eh0 in Ebs. discriminate. }
+        rewrite <- Ebs.
+        rewrite header_roundtrip by (repeat split; [subst cls; destruct (application p); [lia|]; destruct (private p); lia | assumption | assumption]).
+        rewrite Ee. cbn [t_class t_tag t_len t_comp]. fold cls.
+        rewrite N.eqb_refl. unfold opt_tag_eqb. rewrite Ep, N.eqb_refl. cbn [andb orb].
+        rewrite orb_true_r. cbn [andb].
+        assert (Er : is_raw t = false) by (destruct t; try reflexivity; congruence). rewrite Er.
+        assert (E0 : (0 <? L) = true) by (apply N.ltb_lt; lia). rewrite E0.
+        destruct elem_bytes_cons as (b1 & r1 & E1). rewrite E1. rewrite <- E1.
+        rewrite parse_elem_header.
+        apply match_elem_tagged. assumption.
+      + (* implicit *)
+        rewrite tag_body_plain by (now right).
+        unfold pre_field.
+        destruct elem_bytes_cons as (b1 & r1 & E1). rewrite E1. rewrite <- E1.
+        rewrite parse_elem_header. rewrite Ee.
+        apply match_elem_tagged. assumption.
+    - rewrite tag_body_plain by (now left).
+      unfold pre_field.
+      destruct elem_bytes_cons as (b1 & r1 & E1). rewrite E1. rewrite <- E1.
+      rewrite parse_elem_header. rewrite Hpt.
+      apply match_elem_tagged. assumption.
   Qed.
 End Tagged.
